@@ -2,6 +2,8 @@ import SpecKitV.Lemmas.SchedLtf
 import SpecKitV.Lemmas.Starts
 import SpecKitV.Lemmas.SchedNewVec
 import SpecKitV.Props.C04
+import SpecKitV.Props.SchedGen
+import SpecKitV.Props.Utils
 
 #print axioms ltfStep_mono
 #print axioms ltfStep_logspaced
@@ -25,3 +27,8 @@ import SpecKitV.Props.C04
 #print axioms findJdes_sound
 #print axioms findJdes_fuel
 #print axioms findJdes_complete
+#print axioms gen_ltf_round_eq
+#print axioms gen_ltf_walk_eq_model
+#print axioms gen_new_walk_eq_model
+#print axioms gen_round_half_up_eq_model
+#print axioms gen_round_half_up_eq_floor
